@@ -27,7 +27,8 @@
    search): netServe then writes client.out in the goingLive branch; in the variant
    `detach_prewrite = false` that branch has no pre-write (it goes from L4 straight to P6).
 
-   The background flusher loops F1 lock; F2 flushAOF(true); F3 unlock.
+   The background flusher loops F1 lock; F2 flushAOF(true); F3 unlock.  (In the variant
+   `flusher_swap` F1 is the flag swap and FL the lock.)
 
    `variant` selects between the statement orders; the harness checks on every run which one the
    source has (harness/cmd/c08: parse of netServe).  No proofs in this file. *)
@@ -39,22 +40,31 @@ Definition tid := nat.
 
 Record variant := mkVariant {
   v_store_locked : bool;     (* aofdirty.Store(false) is inside the locked region (before the unlock) *)
-  v_detach_prewrite : bool   (* the goingLive branch runs the pre-write before writing client.out *)
+  v_detach_prewrite : bool;  (* the goingLive branch runs the pre-write before writing client.out *)
+  v_flusher_swap : bool;     (* backgroundSyncAOF starts with `if !s.aofdirty.Swap(false) { return }`,
+                                before it takes the lock (not the case in tile38; a recognised other order) *)
+  v_flag_in_writeaof : bool  (* s.aofdirty.Store(true) is inside writeAOF, before the append; false: it is
+                                in handleInputCommand after writeAOF returned, so the writes a Lua script
+                                makes through luaTile38AtomicRW / luaTile38NonAtomic never raise it *)
 }.
 
 (* tile38 at the pinned commit *)
-Definition v_pinned : variant := mkVariant false false.
+Definition v_pinned : variant := mkVariant false false false true.
 (* tile38 with proposed_fixes/C08-prewrite-order.diff applied (what /repo's working tree holds) *)
-Definition v_fixed : variant := mkVariant true true.
+Definition v_fixed : variant := mkVariant true true false true.
 
-Inductive pc := CMD | L2 | L3 | L4 | P1 | P2 | P3 | P4 | P4U | P5 | P6 | DONE | F1 | F2 | F3.
+Inductive pc := CMD | L2 | L3 | L4 | P1 | P2 | P3 | P4 | P4U | P5 | P6 | DONE | F1 | FL | F2 | F3.
 
-Record batch := mkBatch { b_cmds : list cmd; b_detach : bool }.
+(* b_script: the write commands of the batch are issued from inside Lua scripts (EVAL / EVALNA ...
+   tile38.call('set', ...)): same lock / writeAOF / unlock steps (handleInputCommand's eval arm or
+   luaTile38NonAtomic takes s.mu), but writeAOF is called by scripts.go, not by handleInputCommand *)
+Record batch := mkBatch { b_cmds : list cmd; b_detach : bool; b_script : bool }.
 
 Record thread := mkThread {
   t_pc : pc;
   t_cur : list cmd;      (* commands of the current batch not yet executed *)
   t_detach : bool;       (* the current batch ends by going live *)
+  t_script : bool;       (* the commands of the current batch are written by scripts *)
   t_rest : list batch;   (* batches not yet received *)
   t_pend : list cmd      (* commands logged by this connection, reply still in client.out *)
 }.
@@ -80,18 +90,18 @@ Definition after_cmds (v : variant) (detach : bool) : pc :=
 Definition enter (v : variant) (cur : list cmd) (detach : bool) : pc :=
   match cur with [] => after_cmds v detach | _ :: _ => CMD end.
 
-Definition done_thread : thread := mkThread DONE [] false [] [].
+Definition done_thread : thread := mkThread DONE [] false false [] [].
 
 (* load the next batch (after the socket write, or at start) *)
 Definition next_batch (v : variant) (was_detach : bool) (rest : list batch) : thread :=
   if was_detach then done_thread else
   match rest with
   | [] => done_thread
-  | b :: r => mkThread (enter v (b_cmds b) (b_detach b)) (b_cmds b) (b_detach b) r []
+  | b :: r => mkThread (enter v (b_cmds b) (b_detach b)) (b_cmds b) (b_detach b) (b_script b) r []
   end.
 
 Definition set_pc (th : thread) (p : pc) : thread :=
-  mkThread p (t_cur th) (t_detach th) (t_rest th) (t_pend th).
+  mkThread p (t_cur th) (t_detach th) (t_script th) (t_rest th) (t_pend th).
 
 Definition step (v : variant) (st : state) (t : tid) : state :=
   let th := threads st t in
@@ -102,16 +112,21 @@ Definition step (v : variant) (st : state) (t : tid) : state :=
       | None => mkState (upd T t (set_pc th L2)) (Some t) (dirty st) (buf st) (file st) (acked st)
       | Some _ => st
       end
-  | L2 => mkState (upd T t (set_pc th L3)) (lock st) true (buf st) (file st) (acked st)
+  | L2 => mkState (upd T t (set_pc th L3)) (lock st) (if v_flag_in_writeaof v then true else dirty st)
+                  (buf st) (file st) (acked st)
   | L3 =>
       match t_cur th with
       | c :: cur' =>
-          mkState (upd T t (mkThread L4 cur' (t_detach th) (t_rest th) (t_pend th ++ [c])))
+          mkState (upd T t (mkThread L4 cur' (t_detach th) (t_script th) (t_rest th) (t_pend th ++ [c])))
                   (lock st) (dirty st) (buf st ++ [c]) (file st) (acked st)
       | [] => mkState (upd T t (set_pc th L4)) (lock st) (dirty st) (buf st) (file st) (acked st)
       end
   | L4 =>
-      mkState (upd T t (set_pc th (enter v (t_cur th) (t_detach th)))) None (dirty st) (buf st) (file st) (acked st)
+      (* variant flag-in-dispatcher: handleInputCommand raises the flag after writeAOF, just before its
+         deferred unlock; a script's writeAOF is not followed by that statement *)
+      mkState (upd T t (set_pc th (enter v (t_cur th) (t_detach th)))) None
+              (if negb (v_flag_in_writeaof v) && negb (t_script th) then true else dirty st)
+              (buf st) (file st) (acked st)
   | P1 =>
       mkState (upd T t (set_pc th (if dirty st then P2 else P6))) (lock st) (dirty st) (buf st) (file st) (acked st)
   | P2 =>
@@ -132,6 +147,15 @@ Definition step (v : variant) (st : state) (t : tid) : state :=
               (acked st ++ t_pend th)
   | DONE => st
   | F1 =>
+      if v_flusher_swap v then
+        (* `if !s.aofdirty.Swap(false) { return }` with no lock held *)
+        mkState (upd T t (set_pc th (if dirty st then FL else F1))) (lock st) false (buf st) (file st) (acked st)
+      else
+      match lock st with
+      | None => mkState (upd T t (set_pc th F2)) (Some t) (dirty st) (buf st) (file st) (acked st)
+      | Some _ => st
+      end
+  | FL =>
       match lock st with
       | None => mkState (upd T t (set_pc th F2)) (Some t) (dirty st) (buf st) (file st) (acked st)
       | Some _ => st
@@ -146,7 +170,7 @@ Definition run_from (v : variant) (st : state) (sched : list tid) : state :=
 Definition init_thread (v : variant) (p : prog) : thread :=
   match p with
   | PConn bs => next_batch v false bs
-  | PFlusher => mkThread F1 [] false [] []
+  | PFlusher => mkThread F1 [] false false [] []
   end.
 
 Definition init (v : variant) (progs : list prog) : state :=
@@ -169,11 +193,19 @@ Fixpoint trace (v : variant) (st : state) (sched : list tid) : list state :=
 
 (* the schedule of DESIGN.md (finding F13): A = thread 0, C = thread 1, one command each *)
 Definition f13_progs : list prog :=
-  [PConn [mkBatch [1%N] false]; PConn [mkBatch [2%N] false]].
+  [PConn [mkBatch [1%N] false false]; PConn [mkBatch [2%N] false false]].
 Definition f13_sched : list tid :=
   [0;0;0;0; 0; 0;0;0;0;  1;1;1;1;  0;  1; 1]%nat.
 (*  A:CMD..L4 P1 P2..P4U  C:CMD..L4 A:P5 C:P1 C:P6 *)
 
 (* second witness: one connection, a write followed in the same packet by a message that goes live *)
-Definition f13b_progs : list prog := [PConn [mkBatch [1%N] true]].
+Definition f13b_progs : list prog := [PConn [mkBatch [1%N] true false]].
 Definition f13b_sched : list tid := [0;0;0;0; 0]%nat.
+
+(* a flusher that consumes the flag before it holds the lock: B logs, the flusher swaps, B tests the flag *)
+Definition fswap_progs : list prog := [PConn [mkBatch [1%N] false false]; PFlusher].
+Definition fswap_sched : list tid := [0;0;0;0; 1; 0;0]%nat.
+
+(* the flag raised by the dispatcher instead of writeAOF: one connection, one write made by a script *)
+Definition fdisp_progs : list prog := [PConn [mkBatch [1%N] false true]].
+Definition fdisp_sched : list tid := [0;0;0;0; 0;0]%nat.
